@@ -11,3 +11,4 @@ Definition et_startup_timeout_ms : N := 30000. (* startupTimeout *)
 Definition et_running_delay_ms : N := 200.    (* time.AfterFunc delay of TASK_RUNNING in doLaunch *)
 Definition et_pending_cap : N := 1.           (* cap(pendingFinalTaskStateCh) *)
 Definition et_stop_guards_nil : bool := true. (* ensureBasicTaskKilled tests ProcessState != nil before Exited() *)
+Definition et_transition_checks_dst : bool := true. (* executorcmd doTransition: success only if reply.GetState() == destination *)
